@@ -35,6 +35,18 @@ CHECKS = {
    text="Two analyses per path. Amplitude: the real cyclepoint search on x and a*x with a symbolic a > 0 (tables proved identical), and the full table on x and a*x for a in {2^-20, 1/2, 2, 2^20} with the cyclepoint search cut (voltage features and band_amp proved multiplied by a, everything else and the labels identical; scale factors are pulled out of the z3 terms so ratios cancel exactly). Units: the whole pipeline on (x, fs, f_range) and (x, c*fs, c*f_range) with symbolic c > 0 and ratio-keyed neurodsp stubs (tables proved identical).",
    note="Trusted: models (witness-validated); relational stub contracts (filter/amplitude positively homogeneous, detector scale-free, all depend on f/fs only). Bounds in evidence.bounds. IEEE rounding is outside (the statement itself restricts to powers of two).",
    ref="4 C10"),
+ 'C11': dict(
+   text="compute_features is cut to a recorder whose token carries its arguments; multiprocessing.Pool is a model whose completion order is a solver-chosen permutation (imap yields in submission order, imap_unordered in completion order); all samples, n_jobs (>= 1 or -1), cpu_count, the permutation, return_samples and option values are z3 variables. On every feasible path result[i] is proved to be the analysis of row i with the options of row i (return_samples overridden), for compute_features_2d(axis=0) and BycycleGroup.fit; independence of n_jobs / completion order / progress follows.",
+   note="Trusted: the stdlib Pool ordering contract (modelled, real OS scheduling not explored); equal arguments => equal analysis (C15). Bound: 1..3 rows (quick) / 1..4 (thorough).",
+   ref="4 C11"),
+ 'C12': dict(
+   text="Same machinery as C11 for 3-D arrays: extents (n0, n1) enumerated over {1,2,3}^2 incl. n0 != n1, axis in {0, 1, (0,1)}, shared / 1-D / 2-D option lists; axis=(0,1) runs the real inner compute_features_2d with compute_features cut, axis 0/1 cut compute_features_2d to a per-epoch token recorder; every entry [i][j] is proved to sit at the position of its signal / slice with the options of that position; BycycleGroup models mirror it.",
+   note="As C11. Bound: n0*n1 <= 6 with 2 samples (quick); all nine extents with 3 samples (thorough).",
+   ref="4 C12"),
+ 'C13': dict(
+   text="epoch_df and compute_features_2d(axis=None) run for real on an arbitrary C01-conforming flattened table (sample columns z3 integers, feature cells z3 reals/NaN, epoch_len an unbounded z3 integer); every cycle is proved to land in exactly one epoch (the one containing its closing extremum), in order, with unchanged features and shifted samples; labels equal the flattened labels for a single option set and the per-epoch rule for a list (real detect_bursts_* run).",
+   note="Trusted: models (witness-validated); compute_features cut to a recorder whose labels follow the rule for the first option set; boundary coincidences accepted on either half-open convention. Bound: 1..3 epochs, 0..3 cycles (quick) / 0..5 (thorough).",
+   ref="4 C13"),
  'C14': dict(
    text="One inductive step instead of history enumeration: from symbolic settings (threshold values, min_n_cycles, reductions as z3 variables) the constructor is proved to store exactly its arguments with shorthand names expanded; fit is proved to call compute_features with exactly the stored settings, to store its result and to leave the option dictionaries value-equal; recompute_edges(r) is proved to hand over every *_threshold lowered by r without touching the stored thresholds; group models are proved to mirror df_features / sigs by position. Real-pipeline runs compare Bycycle.fit with compute_features and four explicit histories (fit/edit/refit, fit/recompute/refit, load/fit, fit A/fit B) with a fresh object on the same path.",
    note="Trusted: models (witness-validated); stubs (same input -> same output); cyclepoint search cut to an arbitrary C01-conforming table in the real-pipeline steps. Histories longer than 3 steps are covered only through the invariant argument. Bounds in evidence.bounds.",
